@@ -295,6 +295,32 @@ def b_native(B):
             shutil.rmtree(d, ignore_errors=True)
 
 
+    # documented option: only the first nsamples samples are processed - the LF stream then has ceil(nsamples / 12) samples (nothing reserved for the rest)
+    for version in ("NP2.1", "NP2.4"):
+        d = tempfile.mkdtemp(prefix="c12_")
+        try:
+            ns, npart = lens[0], 4003
+            fixm = None if version == "NP2.4" else os.path.join(os.path.dirname(C03.FIXM), "..", "NP21_meta", os.path.basename(C03.FIXM))
+            ap, D = C03._mk_np24(d, 0.5, 8192, ns, rng=rng, fixm=fixm)
+            conv = neuropixel.NP2Converter(ap, post_check=False, compress=False)
+            conv.init_params(nwindow=3000, nsamples=npart)
+            st = conv.process()
+            bad = []
+            for sh, inf in conv.shank_info.items():
+                nchn = len(inf["chns"])
+                lf = np.fromfile(inf["lf_file"], dtype=np.int16)
+                sr = spikeglx.Reader(inf["lf_file"], sort=False)
+                if st != 1 or lf.size != -(-npart // 12) * nchn or sr.shape != (-(-npart // 12), nchn) or not np.array_equal(lf.reshape(-1, nchn)[:, -1], D[:npart:12, -1]):
+                    bad.append((sh, "status", st, "lf samples in the file", lf.size / nchn, "reader shape", tuple(sr.shape), "expected samples", -(-npart // 12)))
+                sr.close()
+            conv.sr.close()
+            B.case(("first_nsamples_only", version), not bad, detail=bad[:4], inputs={"kind": "partial", "version": version})
+        except Exception as e:
+            B.case(("first_nsamples_only", version), False, detail=repr(e)[:200], inputs={"kind": "partial", "version": version})
+        finally:
+            shutil.rmtree(d, ignore_errors=True)
+
+
 # ----------------------------------------------------------------------------- contracts of dependencies this property rests on (re-checked here)
 from pyvc.api import depends  # noqa: E402
 depends(PROPERTY, "C17", ["firstlast"])      # generator contract + nwin == count, used by the window-loop harnesses
